@@ -1,9 +1,9 @@
 CONSTANTS
-  Codecs = {"cachecontrol", "b64", "basic", "authparam", "set", "setv"}
+  Codecs = {"setv"}
   Law = "inv"
   Lens <- LenQ
   Items <- ItemsQ
 INIT Init
 NEXT Next
 CHECK_DEADLOCK FALSE
-INVARIANT Inverse2
+INVARIANT BrokenSetItem
